@@ -80,24 +80,33 @@ Definition form_pos_ok (G : list symop) (c : pcert) (f : pform) : bool :=
   end.
 
 (* --- clause: every operation of the group sends x (mod 1) to the image under one of the listed
-       representatives, and has the same effect on the free directions as that representative --- *)
+       representatives, and has the same effect on the free directions as that representative.
+       The canonical images of the representatives are computed once. --- *)
 Definition rows_agree (R1 R2 : m3) (N : list q3) : bool := forallb (fun n => q3eqb (mq R1 n) (mq R2 n)) N.
-Definition covered_by (G : list symop) (x : q3) (N : list q3) (g : symop) (f : pform) : bool :=
+Definition rep_can (G : list symop) (x : q3) (f : pform) : option (m3 * q3) :=
   match nth_error G (pf_rep f) with
-  | Some gi => same_mod1 (opq g x) (opq gi x) && rows_agree (fst g) (fst gi) N
+  | Some gi => Some (fst gi, q3canon (opq gi x))
+  | None => None
+  end.
+Definition covered_by (N : list q3) (R : m3) (cg : q3) (o : option (m3 * q3)) : bool :=
+  match o with
+  | Some (Ri, ci) => q3same cg ci && rows_agree R Ri N
   | None => false
   end.
 Definition orbit_covered (G : list symop) (c : pcert) : bool :=
-  forallb (fun g => existsb (covered_by G (pc_x c) (pc_N c) g) (pc_forms c)) G.
+  let cans := map (rep_can G (pc_x c)) (pc_forms c) in
+  forallb (fun g => existsb (covered_by (pc_N c) (fst g) (q3canon (opq g (pc_x c)))) cans) G.
 
 (* --- clause: the listed representatives give pairwise different images of x (mod 1) --- *)
 Definition rep_img (G : list symop) (x : q3) (f : pform) : q3 :=
   match nth_error G (pf_rep f) with Some g => opq g x | None => x end.
-Fixpoint images_distinct (G : list symop) (x : q3) (fs : list pform) : bool :=
-  match fs with
+Fixpoint distinct_can (l : list q3) : bool :=
+  match l with
   | [] => true
-  | f :: r => forallb (fun f' => negb (same_mod1 (rep_img G x f) (rep_img G x f'))) r && images_distinct G x r
+  | a :: r => forallb (fun b => negb (q3same a b)) r && distinct_can r
   end.
+Definition images_distinct (G : list symop) (x : q3) (fs : list pform) : bool :=
+  distinct_can (map (fun f => q3canon (rep_img G x f)) fs).
 
 (* all clauses, numbered for diagnostics *)
 Definition pos_clauses (G : list symop) (c : pcert) : list (Z * bool) :=
